@@ -205,7 +205,8 @@ REAL = [
 STUB = [
     "the four chain-service threads and their select! loops (replaced by the simulator's step scheduler through ckb_chain::verif::SimChain)",
     "tx-pool service (not started: the chain stages skip pool notifications, as in `ckb import`)",
-    "sync/relay protocols (replaced by the delivery generator), PoW (Pow::Dummy), network, RPC",
+    "sync/relay protocols (replaced by the delivery generator; C03/C07 pipeline runs put the real HeaderVerifier in front as submit_block does), network, RPC transport",
+    "proof of work: Pow::Dummy except in half of the C03 runs and the pipeline runs of C07, which use the real Eaglesong / EaglesongBlake2b engines with nonces mined by the model",
     "wall clock (ckb_systemtime faketime), OS randomness for HashMap seeds (getrandom interposed, function of the run's seed)",
 ]
 
